@@ -534,7 +534,7 @@ func runRelayIn(c *sim.Ctl, mode string) {
 	c.MaxSteps = 400
 	c.InitStrategy()
 	pick := func(p int) bool { return st.Draw(100) < p }
-	r.base = []string{"", "/base", "/b/c"}[st.Draw(3)]
+	r.base = []string{"", "/base", "/b/c", "/shared%20docs", "/caf%C3%A9"}[st.Draw(5)] // (a base path may need percent-encoding itself)
 	if pick(50) {
 		r.without = "/api"
 	}
@@ -586,6 +586,13 @@ func runRelayIn(c *sim.Ctl, mode string) {
 		if pick(60) {
 			r.downRules = append(r.downRules, [2]string{"+Link", "</two.js>; rel=preload"})
 		}
+	}
+	if pick(25) {
+		// a field is set and then added to: the rules take effect in the order they are written in
+		r.upRules = append(r.upRules, [2]string{"X-Role", "gateway"}, [2]string{"+X-Role", "tenant-a"})
+	}
+	if pick(25) {
+		r.downRules = append(r.downRules, [2]string{"X-Tier", "edge"}, [2]string{"+X-Tier", "b"})
 	}
 	if pick(15) {
 		// a rule may set a field the proxy itself strips from backend responses: the rule is what counts
@@ -1135,7 +1142,7 @@ func (r *relayRig) judge() {
 				c.Violate("C04/host-header", "", "request %d: backend received Host %q, want the upstream's address", q.id, v)
 			}
 			// anything else the backend saw must be explainable
-			allowed := map[string]bool{"Connection": true, "Host": true, "Accept-Encoding": true, "Content-Length": true, "Transfer-Encoding": true, "X-Forwarded-For": true}
+			allowed := map[string]bool{"Connection": true, "Host": true, "Content-Length": true, "Transfer-Encoding": true, "X-Forwarded-For": true}
 			if r.transparent {
 				allowed["X-Real-Ip"], allowed["X-Forwarded-Proto"], allowed["X-Forwarded-Port"], allowed["X-Forwarded-Host"] = true, true, true, true
 			}
